@@ -10,6 +10,8 @@ THEOREMS = {
     "C14": ["C14_index_governs", "C14_iteration_is_index_order", "C14_nth_agrees"],
     "C15": ["C15_history", "C15_nth_and_count_stable", "C15_iteration", "C15_partial_iteration", "C15_positions"],
     "C05": ["C05_shape_box", "C05_range_is_box", "C05_header_box", "C05_header_absent"],
+    "C06": ["C06_typed_vs_generic", "C06_never_wrong_type", "C06_type_identity", "C06_dispatch", "C06_try_from",
+            "C06_from_tryfrom", "C06_bulk"],
     "C03": ["C03_record", "C03_decodes_conformant"],
     "C09": ["C09_finalize_irrelevant", "C09_files", "C09_finalize_complete", "C09_clean_finalize_silent"],
     "C10": ["C10_reject", "C10_erase"],
@@ -22,7 +24,8 @@ THEOREMS = {
 # theorems whose statement mentions the orientation test (Flocq binary64 arithmetic) inherit the four
 # classical-reals axioms of the standard library through Flocq's definitions
 FLOCQ = set(STDLIB_AXIOMS_ALLOWED)
-AXIOMS = {"C05_shape_box": FLOCQ,
+AXIOMS = {"C06_typed_vs_generic": FLOCQ, "C06_never_wrong_type": FLOCQ, "C06_dispatch": FLOCQ,
+          "C05_shape_box": FLOCQ,
           "C01_roundtrip_index": FLOCQ, "C04_shx_layout": set(), "C04_entries_address_records": FLOCQ, "C04_reader": FLOCQ,
           "C04_hint_and_count": FLOCQ, "C14_index_governs": FLOCQ, "C14_iteration_is_index_order": FLOCQ, "C14_nth_agrees": FLOCQ,
           "C15_history": FLOCQ, "C15_nth_and_count_stable": FLOCQ, "C15_iteration": FLOCQ, "C15_partial_iteration": FLOCQ,
